@@ -44,11 +44,14 @@ def st_valid(draw, prior):
         d = draw(st.sampled_from(DT))
         if d is not None:
             tags.append(list(d))
-    extra = draw(st.integers(0, 9))
+    extra = draw(st.integers(0, 10))
+    if extra == 10:
+        extra = 4
     if extra <= 3:
         tags.append(["t", draw(st.sampled_from(["a", "ab", "", "é", "x" * 200]))])
     elif extra == 4:
-        tags.append(["t", "y" * draw(st.sampled_from([300, 460, 480, 520, 700]))])
+        # around LMDB's 511-byte key limit (511 - 38 byte suffix - 3 byte prefix = 470) and beyond
+        tags.append(["t", "y" * draw(st.sampled_from([300, 467, 468, 469, 470, 471, 472, 473, 474, 520, 700]))])
     elif extra == 5:
         ts = draw(st.sampled_from([2**31 - 1, 2**31, 2**32 - 1, 2**32, 2**63 - 1, 2**63, 2**64]))
     elif extra == 6:
